@@ -244,7 +244,18 @@ pub fn generate(rng: &mut Rng, tier: Tier) -> Plan {
                     tod: q.tod,
                 }
             })
-            .collect()
+            .collect::<Vec<Quote>>()
+    };
+    // the same pair named more than once in one update: the later entry is the latest quote
+    let gen_valid_items = |rng: &mut Rng, cur: &Vec<Quote>, float_only: bool| -> Vec<Quote> {
+        let mut items = gen_valid_items(rng, cur, float_only);
+        if rng.chance(0.04) && !items.is_empty() {
+            let mut dup = rng.pick(&items).clone();
+            dup.num = dup.num.with_value(gen_level(rng));
+            let pos = rng.usize_in(0, items.len());
+            items.insert(pos, dup);
+        }
+        items
     };
     let gen_refuse_unknown =
         |rng: &mut Rng, cur: &Vec<Quote>, ccys: &Vec<String>, outsider: &str| -> Vec<Quote> {
@@ -1207,6 +1218,11 @@ pub fn execute(plan: &Plan, obs: &mut Obs) -> Result<(), Fail> {
                         if items.is_empty() {
                             obs.count("reach.empty_update");
                         }
+                        if items.iter().enumerate().any(|(i, a)| {
+                            items[..i].iter().any(|b| a.lhs == b.lhs && a.rhs == b.rhs)
+                        }) {
+                            obs.count("reach.pair_named_twice_in_one_update");
+                        }
                         if items.iter().any(|it| {
                             mk[ti].model.quotes.iter().any(|q| {
                                 q.lhs == it.lhs
@@ -1567,7 +1583,7 @@ impl Scenario for C10 {
     fn assumptions() -> Vec<String> {
         vec![
             "positive finite quotes in 1e-4..1e4; distinct variable names per number; user variables never named fx_*".into(),
-            "reversed-pair updates, duplicate pairs inside one update and mixed valid+late items are not generated (the property does not state their outcome)".into(),
+            "reversed-pair updates are not generated (the property does not state their outcome); a pair named twice in one update is read as: the later entry is the latest quote".into(),
             "numerical agreement is judged with a running first-order error bound (1e5 eps x magnitude of the terms summed), bit-exactness only where the code copies a number".into(),
             "the derivative order left behind by an accepted update is not asserted (not stated by the property)".into(),
             "no thread schedules are sampled: all mutation is behind &mut self (DESIGN 1.2)".into(),
